@@ -60,7 +60,7 @@ TRet ==
   /\ CASE Ev.op = "make_face"    -> MakeFace(Ev.arg % 8, tkind, IF Ev.arg >= 16 THEN "opsnr" ELSE IF Ev.arg >= 8 THEN "file" ELSE "ops") /\ (phase' = "live") = (Ev.ok = 1)
        [] Ev.op = "label"        -> LabelQuery
        [] Ev.op = "face_query"   -> FaceQuery
-       [] Ev.op = "featval"      -> FeatVal
+       [] Ev.op = "featval"      -> FeatVal(Ev.arg)
        [] Ev.op = "destroy_fval" -> DestroyFval
        [] Ev.op = "make_font"    -> MakeFont(Ev.arg)
        [] Ev.op = "destroy_font" -> DestroyFont
